@@ -8,6 +8,6 @@ trap 'rm -rf "$D"' EXIT
 git -C /repo archive HEAD | tar -x -C "$D"
 # include uncommitted working-tree state of /repo
 (cd /repo && git diff) | (cd "$D" && patch -p1 -s) 2>/dev/null || true
-(cd "$D" && patch -p1 -s < "$PATCH")
+case "$PATCH" in *.sh) (cd "$D" && sh "$PATCH");; *) (cd "$D" && patch -p1 -s < "$PATCH");; esac
 mkdir -p "$D/.ev" "$D/.rp"
 VERIF_REPO="$D" VERIF_EVIDENCE_DIR="$D/.ev" VERIF_REPLAY_DIR="$D/.rp" /verif/run "$CHK" "$@" | sed "s|$D|<scratch>|g" | tail -${MUT_TAIL:-6}
